@@ -333,7 +333,7 @@ class Union:
     def codegen(self):
         from .dependent import combine, generate_checking_code
 
-        template = " or ".join("{}" for t in self.types)
+        template = "(" + " or ".join("{}" for t in self.types) + ")"
         return combine(
             template, [generate_checking_code(t) for t in self.types]
         )
@@ -384,7 +384,7 @@ class Intersection:
     def codegen(self):
         from .dependent import combine, generate_checking_code
 
-        template = " and ".join("{}" for t in self.types)
+        template = "(" + " and ".join("{}" for t in self.types) + ")"
         return combine(
             template, [generate_checking_code(t) for t in self.types]
         )
